@@ -32,7 +32,7 @@ def split_consts(c):
 def design_run(ctx, c, label):
     c, subst = split_consts(c)
     cfg = tlc.make_cfg(constants=c, subst=subst, spec="Spec", invariants=["SectorInv", "GaugeInv", "NoZero"], properties=["Frame", "ValuePreserving"])
-    r = tlc.run("MpHeap", cfg, timeout=3000)
+    r = tlc.run("MpHeap", cfg, vacuity=True, timeout=3000)
     ctx.add_tlc(r, label)
     if r["violated"]:
         ctx.violation(f"{ctx.pid}:spec:{r['violated']}", f"MpHeap design model violates {r['violated']} ({label})", {"tlc": r.get("error_text", "")[:3000]})
